@@ -36,7 +36,9 @@ RULES = [
   (r'bitstr::Bitstr::to_hex_string', r'call:unwrap', r'from_digit\(Shr', 'Gt(', 'val is a u8 widened to u32: val >> 4 <= 15 < 16'),
   (r'bitstr::Bitstr::to_int', r'Overflow\(Sub\)|Overflow\(Shl\)', r'', 'Ne(cast(bitstr::Bitstr::len(&(*arg1))), 0)', 'len != 0 on this path; callers bound len <= 128 (read_signed rejects longer), so len-1 <= 127 shifts a u128'),
   (r'bitstr::Bitstr::to_int', r'OverflowNeg', r'', 'Ne(cast(bitstr::Bitstr::len(&(*arg1))), 128)', 'len != 128 here, so (!val & mask) + 1 <= 2^(len-1) <= 2^126 is a positive i128 and its negation cannot overflow'),
-  (r'bitstr::Bitstr::to_uint', r'Overflow\(Shl\)', r'', '@to_uint-callers-bound-len', '(val as u128) << (pos - start): pos - start < len and callers bound len <= 128 (read_unsigned rejects > 127 bits, read_signed > 128, to_int)'),
+  # operand-free (`*`), also for closures of to_uint (a fold over iter8): the argument is the callers' bound on len, re-checked by the predicate
+  (r'bitstr::Bitstr::to_uint', r'Overflow\(Shl\)', r'\*', '@to_uint-callers-bound-len', '(val as u128) << (pos - start): pos - start < len and callers bound len <= 128 (read_unsigned rejects > 127 bits, read_signed > 128, to_int)'),
+  (r'bitstr::Bitstr::to_uint', r'Overflow\(Add\)', r'\*', '@to_uint-callers-bound-len', 'the shift is the sum of the widths of the iter8 items consumed so far: at most len, which the callers bound by 128'),
   (r'bitstr::Bitstr::to_uint', r'Overflow\(Sub\)', r'', '-', 'pos starts at start() and only grows'),
   (r'bitstr::BitvecBuilder::append_bit', r'call:index:index_mut', r'', 'Ne(Vec::<T, A>::len', 'a byte is pushed whenever data.len() == len/8; in the else branch data.len() == len/8 + 1'),
   (r'bitstr::BitvecBuilder::append_bit', r'panic:panic', r'val<=1', '-', 'every caller passes a single bit: 0 / 1 literals, (x >> i) & 1, or op(a, b) of two bits under and/or/xor (lexer, from_bin_str, bitstring_zip_with)'),
@@ -50,7 +52,7 @@ RULES = [
   (r'bitstr_ext::nulbytestr_peek', r'Overflow\(Add\)', r'', '-', 'len sums the widths of the iter8 items of the rest of the input (<= its bit length); start + len <= end'),
   (r'bitstr_ext::nulbytestr_peek', r'call:unwrap', r'Bitstr::read', '-', 'len <= rest.len() (sum of its own item widths), so read(len) is Some'),
   (r'bitstr_ext::random_bits', r'call:unwrap', r'Bitstr::read', 'Gt(Rem(', 'the buffer has upper_bound_index(n) bytes >= n bits'),
-  (r'bitstr_ext::word_close_bitstr', r'call:unwrap', r'drop_last', 'call Option::<T>::ok_or_else', 'last() was Some (the `?` above returned otherwise), so the vector is non-empty and drop_last() is Some'),
+  (r'bitstr_ext::word_close_bitstr', r'call:unwrap', r'drop_last', 'call Option::<T>::ok_or_else || call rpds::vector::Vector::<T, P>::last', 'last() was Some (the `?` above returned otherwise), so the vector is non-empty and drop_last() is Some'),
   (r'bitstr_ext::word_find', r'Overflow\((Add|Mul)\)', r'', '-', 'pos is a byte offset returned by memmem::find inside rest_bytes: pos*8 < rest.len() and start + pos*8 < end'),
   (r'bitstr_ext::write_dump_position|state::State::pretty_error', r'call:unwrap', r'write_fmt', '-', 'write! into a String cannot fail'),
   (r'file::fs_overlay::exec_piped', r'call:unwrap', r'', '-', 'the child was spawned with Stdio::piped() for stdin, so stdin.take() is Some'),
@@ -111,6 +113,11 @@ def main():
             rows[key] = hit
         else:
             unmatched.append(key)
+    # operand-free entries are standing entries: present whether or not today's form of the function needs them
+    for (rf, rk, rs, needs, reason) in RULES:
+        if rs == r'\*' and re.fullmatch(r'[\w:<>\' ]+', rf):
+            for kind in re.sub(r'\\', '', rk).split('|'):
+                rows.setdefault(c08.site_key(rf, kind, '*'), (needs, reason))
     out = os.path.join(fw.VERIF, 'tables', 'c08_reviewed.tsv')
     with open(out, 'w') as fh:
         fh.write('# C08 reviewed discharges: site key <TAB> guard text that must dominate the site (or -) <TAB> one-line argument\n')
